@@ -1109,6 +1109,7 @@ class _Path:
         self.result = None
         self.end = None
         self.bits = {}       # symbol id -> bits known to be set
+        self.stores = []     # every store executed: location key, value before / after, facts known at that moment
 
     def fork(self):
         p = _Path()
@@ -1121,6 +1122,7 @@ class _Path:
         p.visits = dict(self.visits)
         p.nsym = self.nsym
         p.bits = dict(self.bits)
+        p.stores = list(self.stores)
         return p
 
     def fresh(self, label):
@@ -1172,6 +1174,15 @@ class _Path:
             elif lo == hi == 0:
                 if not self.constrain(lb[1], '!=', 0, True):
                     return False
+        if lb and lb[0] == 'cmp' and not _rec:
+            # the truth value of `a op b` was found non-zero / zero: the comparison holds / does not hold
+            from ..core import NEG
+            if lo > 0 or hi < 0 or 0 in ne:
+                if not self.assume_cmp(lb[2], lb[1], lb[3]):
+                    return False
+            elif lo == hi == 0:
+                if not self.assume_cmp(lb[2], NEG[lb[1]], lb[3]):
+                    return False
         if lb and lb[0] == 'and' and (lo > 0 or hi < 0 or 0 in ne) and lb[2] > 0 and lb[2] & (lb[2] - 1) == 0 and lb[1][0] == 's':
             # (x & bit) != 0: the bit is set in x
             self.bits[lb[1][1]] = self.bits.get(lb[1][1], 0) | lb[2]
@@ -1211,6 +1222,7 @@ class SymExec:
         self.max_paths = max_paths
         self.max_visits = max_visits
         self.done = []
+        self.cut = []        # paths abandoned at the visit bound (their prefix was executed)
 
     # ---- expressions -----------------------------------------------------
     @staticmethod
@@ -1415,7 +1427,8 @@ class SymExec:
                     return ('c', 1)
                 if f and not t:
                     return ('c', 0)
-                n = p.fresh(('expr', canon(e)))
+                # undecided: a truth value that remembers the comparison (a predicate helper's result tested later)
+                n = p.fresh(('cmp', e['op'], a, b))
                 p.facts[n[1]] = (0, 1, frozenset())
                 return n
             if ca is not None and cb is not None:
@@ -1446,7 +1459,27 @@ class SymExec:
         return p.fresh(('expr', canon(e)))
 
     # ---- conditions --------------------------------------------------------
-    def _assume(self, p, cond, pol):
+    def _assume(self, p, cond, pol, depth=0):
+        c = strip(cond)
+        if isinstance(c, dict) and depth < 8:
+            if c.get('k') == 'un' and c.get('op') == '!':
+                return self._assume(p, c['e'], not pol, depth + 1)
+            if c.get('k') == 'bin' and c.get('op') in ('&&', '||'):
+                if (c['op'] == '&&') == pol:
+                    return self._assume(p, c['l'], pol, depth + 1) and self._assume(p, c['r'], pol, depth + 1)
+                # a disjunction (`A || B` true, `A && B` false):  L, or not-L and R.  A path carries one set of facts, so an
+                # alternative is assumed only when the facts of the path rule the other one out (the branches of a lowered
+                # `&&` / `||` were decided in earlier blocks of the path)
+                alt1 = self._assume(p.fork(), c['l'], pol, depth + 1)
+                q = p.fork()
+                alt2 = self._assume(q, c['l'], not pol, depth + 1) and self._assume(q, c['r'], pol, depth + 1)
+                if not alt1 and not alt2:
+                    return False
+                if alt1 and not alt2:
+                    return self._assume(p, c['l'], pol, depth + 1)
+                if alt2 and not alt1:
+                    return self._assume(p, c['l'], not pol, depth + 1) and self._assume(p, c['r'], pol, depth + 1)
+                return True
         for (op, lc, rc, l, r) in _norm_cond1(cond, pol):
             if op == 'const':
                 if lc == 'False':
@@ -1463,42 +1496,57 @@ class SymExec:
         ev = e['ev']
         if ev == 'store':
             key = self.lkey(p, e['lhs'])
-            if e.get('op') == '=' and 'rhs' in e:
-                self.write(p, key, self.ev(p, e['rhs']))
-            elif e.get('op') == '|=' and 'rhs' in e and p.const_of(self.ev(p, e['rhs'])) is not None:
-                old = p.store.get(key)
-                bits = p.const_of(self.ev(p, e['rhs']))
-                lb = p.label.get(old[1]) if old is not None and old[0] == 's' else None
-                if lb and lb[0] == 'or':
-                    bits |= lb[1]
-                self.write(p, key, p.fresh(('or', bits)))
-            else:
-                self.write(p, key, p.fresh(('expr', canon(e['lhs']) + e.get('op', ''))))
+            old = p.store.get(key)
+            if old is None and not key.startswith(('?', '*', '$')):
+                old = self.read(p, key)
+            rec = {'event': e, 'key': key, 'old': old, 'new': None, 'ncalls': len(p.calls), 'nconds': len(p.conds)}
+            p.stores.append(rec)
+            self._store(p, e, key)
+            rec['new'] = p.store.get(key)
+            rec['facts'] = dict(p.facts)
         elif ev == 'decl':
             self.havoc(p, e['name'])
         elif ev == 'call':
-            args = [self.ev(p, a) for a in e.get('args', [])]
-            callee = e.get('callee')
-            snap = dict(p.store)
-            cid = len(p.calls)
-            res = p.fresh(('call', callee, e.get('loc')))
-            p.callres[(callee, e.get('loc'))] = res
-            p.calls.append({'callee': callee, 'args': args, 'loc': e.get('loc'), 'store': snap, 'id': cid, 'event': e, 'res': res})
-            if callee == '__errno_location':
-                return
-            for a in args:
-                if a[0] == 'addr':
-                    self.havoc(p, a[1])
-                    if a[1].endswith('[0]'):
-                        self.havoc(p, a[1][:-3])
-            if callee in ('pipe', 'pipe2') and args and args[0][0] == 'addr' and args[0][1].endswith('[0]'):
-                base = args[0][1][:-3]
-                p.store[base + '[0]'] = p.fresh(('pipe', 0, cid))
-                p.store[base + '[1]'] = p.fresh(('pipe', 1, cid))
-            # errno as left by a call: error numbers are positive
-            en = p.fresh(('errno', callee, e.get('loc')))
-            p.facts[en[1]] = (1, INF, frozenset())
-            p.store['errno'] = en
+            self._call(p, e)
+
+    def _store(self, p, e, key):
+        if e.get('op') == '=' and 'rhs' in e:
+            self.write(p, key, self.ev(p, e['rhs']))
+        elif e.get('op') == '|=' and 'rhs' in e and p.const_of(self.ev(p, e['rhs'])) is not None:
+            old = p.store.get(key)
+            bits = p.const_of(self.ev(p, e['rhs']))
+            lb = p.label.get(old[1]) if old is not None and old[0] == 's' else None
+            if lb and lb[0] == 'or':
+                bits |= lb[1]
+            self.write(p, key, p.fresh(('or', bits)))
+        else:
+            self.write(p, key, p.fresh(('expr', canon(e['lhs']) + e.get('op', ''))))
+
+    def _call(self, p, e):
+        args = [self.ev(p, a) for a in e.get('args', [])]
+        callee = e.get('callee')
+        snap = dict(p.store)
+        cid = len(p.calls)
+        res = p.fresh(('call', callee, e.get('loc')))
+        p.callres[(callee, e.get('loc'))] = res
+        rec = {'callee': callee, 'args': args, 'loc': e.get('loc'), 'store': snap, 'id': cid, 'event': e, 'res': res, 'errno': None}
+        p.calls.append(rec)
+        if callee == '__errno_location':
+            return
+        for a in args:
+            if a[0] == 'addr':
+                self.havoc(p, a[1])
+                if a[1].endswith('[0]'):
+                    self.havoc(p, a[1][:-3])
+        if callee in ('pipe', 'pipe2') and args and args[0][0] == 'addr' and args[0][1].endswith('[0]'):
+            base = args[0][1][:-3]
+            p.store[base + '[0]'] = p.fresh(('pipe', 0, cid))
+            p.store[base + '[1]'] = p.fresh(('pipe', 1, cid))
+        # errno as left by a call: error numbers are positive
+        en = p.fresh(('errno', callee, e.get('loc')))
+        p.facts[en[1]] = (1, INF, frozenset())
+        p.store['errno'] = en
+        rec['errno'] = en      # errno as left by this very call (later calls leave their own)
 
     def run(self):
         G = self.G
@@ -1509,6 +1557,7 @@ class SymExec:
                 raise AnalysisBroken('symbolic execution of %s: more than %d paths' % (G.name, self.max_paths))
             p.visits[b] = p.visits.get(b, 0) + 1
             if p.visits[b] > self.max_visits:
+                self.cut.append(p)
                 continue
             blk = G.blocks[b]
             ended = False
